@@ -104,17 +104,44 @@ func main() {
 // resultCache holds the raw result of every check run in this process (a check may share rules of another one).
 var resultCache = map[string]*Result{}
 
+var running = map[string]bool{}
+
 func runCheck(p *Prog, id, tier string) *Result {
 	if r, ok := resultCache[id]; ok {
 		return r
 	}
+	if running[id] {
+		broken("shared rules form a cycle through %s", id)
+	}
+	running[id] = true
+	defer delete(running, id)
 	r := NewResult(id)
 	checks[id](p, r, tier)
 	for _, sh := range sharedRules[id] {
+		if fn, ok := sharedFuncs[sh.from]; ok {
+			// a rule implemented by a function of its own (no property check has to run for it)
+			sub := NewResult(id)
+			doc := fn(p, sub, sh.rule)
+			r.Rule(sh.as, doc+" [same rule as "+sh.rule+"; needed here because "+sh.why+"]", 1)
+			for _, o := range sub.Obligations() {
+				if o.Rule == sh.rule {
+					r.Report(sh.as, o.Func, o.Construct, o.Status, o.Detail, o.Where, o.Trace, o.Nontrivial)
+				}
+			}
+			continue
+		}
 		shareRule(p, r, tier, sh.from, sh.rule, sh.as, sh.why, sh.only)
 	}
 	resultCache[id] = r
 	return r
+}
+
+// sharedFuncs: rules that are functions of their own; the value runs the rule under the given id and returns its text.
+var sharedFuncs = map[string]func(p *Prog, r *Result, rule string) string{
+	"fn:discovery": func(p *Prog, r *Result, rule string) string {
+		checkDiscovery(p, r, rule, rule)
+		return "file discovery inverts the namer (finite evaluation over the name shapes the namer can produce: extensions with one or several dots, with and without the compressed suffix)"
+	},
 }
 
 type share struct{ from, rule, as, why, only string } // only: restrict to obligations whose construct contains it
@@ -131,22 +158,24 @@ func sh(from, rule, as, why string, only ...string) share {
 // never shares, directly or not, from the property that borrows from it).
 var sharedRules = map[string][]share{
 	"C01": {
+		sh("C14", "C14.R4", "C01.S3", "a clone that leaves some kinds shallow lets the caller change what cached reads report without any accepted write"),
 		sh("C14", "C14.R1", "C01.S1", "a stored entry that aliases the caller's structure changes what reads report without any accepted write"),
 		sh("C14", "C14.R2", "C01.S2", "a read that hands out the stored entry lets the caller change what later reads report"),
 	},
-	"C04": {sh("C10", "C10.R7", "C04.S1", "a pending write that survives the deletion of its object is flushed later: the file of a deleted object reappears and the reopened handle sees a collection the closed one did not have", "")},
-	"C05": {sh("C11", "C11.R6", "C05.S1", "reopening after a crash relies on the schema control to report every index/file divergence: a success path that skips an inclusion loop lets a stale entry survive unnoticed", "")},
+	"C02": {sh("C14", "C14.R1", "C02.S1", "a search on an unindexed field evaluates the cached objects: an entry aliasing the caller's value makes it match on values that were never written")},
+	"C04": {sh("fn:discovery", "C18.R4", "C04.S2", "reopening re-discovers the object files from their names: a discovery that mis-parses <uuid><extension>[.gz] reports a healthy collection as corrupted"), sh("C10", "C10.R7", "C04.S1", "a pending write that survives the deletion of its object is flushed later: the file of a deleted object reappears and the reopened handle sees a collection the closed one did not have", "")},
+	"C05": {sh("C11", "C11.R1", "C05.S2", "after a crash the reopened handle learns about a lost file or a lost index entry only through these two loops, under every configuration"), sh("C11", "C11.R6", "C05.S1", "reopening after a crash relies on the schema control to report every index/file divergence: a success path that skips an inclusion loop lets a stale entry survive unnoticed", "")},
 	"C06": {sh("C05", "C05.R5", "C06.S1", "a write that fails after the temporary file exists leaves that file behind: if the integrity control takes it for the object's file, the failed write is silently half-applied", "")},
-	"C11": {sh("C18", "C18.R1", "C11.S1", "Control and Repair decide which directory entries are object files with this pattern: it has to accept every identifier the write path can produce (callers may supply upper-case UUIDs)", "pattern.uuid")},
+	"C11": {sh("fn:discovery", "C18.R4", "C11.S2", "Control and Repair see the directory through the discovery function: it has to recognise every object file name the namer can produce (extension with inner dots, compressed suffix)"), sh("C18", "C18.R1", "C11.S1", "Control and Repair decide which directory entries are object files with this pattern: it has to accept every identifier the write path can produce (callers may supply upper-case UUIDs)", "pattern.uuid")},
 	"C03": {sh("C04", "C04.R4", "C03.S1", "uniqueness is judged on the case-normalised value: a published schema without its transformer list judges raw values")},
-	"C15": {sh("C04", "C04.R4", "C15.S1", "the schema case transforms are a no-op on a published schema whose transformer list was not rebuilt")},
+	"C15": {sh("C16", "C16.R3", "C15.S2", "the schema case transforms run over the transformer list: a descriptor with a case constraint that is kept out of it is validated and stored untransformed"), sh("C04", "C04.R4", "C15.S1", "the schema case transforms are a no-op on a published schema whose transformer list was not rebuilt")},
 	"C16": {sh("C04", "C04.R4", "C16.S1", "case-insensitive fields are stored and indexed un-normalised when a published schema lacks its transformer list")},
 	"C07": {sh("C08", "C08.R3", "C07.S1", "validate-all then insert-all is atomic only if both loops run in one critical section: a writer admitted in between makes the insert loop fail half-way")},
 	"C08": {sh("C10", "C10.R5", "C08.S1", "the flusher's closed-handle test and its flush must be one critical section, otherwise the flush can run after a concurrent Close/Drop returned (check-then-act)")},
-	"C12": {sh("C01", "C01.R7", "C12.S2", "the indexed search reports an unreadable object when its result is collected: the scan of an unindexed field has to report it too, not stop silently"), sh("C01", "C01.R2", "C12.S1", "under every cache / async valuation a delete evicts what that valuation caches, otherwise Exist/Get answers depend on the configuration")},
+	"C12": {sh("C14", "C14.R4", "C12.S3", "with the cache (or asynchronous writes) on, reads come from clones: a shallow clone makes cached and uncached configurations answer differently after the caller edits its own value"), sh("C01", "C01.R7", "C12.S2", "the indexed search reports an unreadable object when its result is collected: the scan of an unindexed field has to report it too, not stop silently"), sh("C01", "C01.R2", "C12.S1", "under every cache / async valuation a delete evicts what that valuation caches, otherwise Exist/Get answers depend on the configuration")},
 	"C09": {sh("C13", "C13.R6", "C09.S1", "the bulk delete holds the handle write lock while it drains an iterator and continues after read errors: an iterator that does not advance on an error never reaches the end, the call never returns and every other call blocks")},
-	"C13": {sh("C02", "C02.R5", "C13.S1", "result order is the order of the live field index: a write through a result slice aliasing it re-orders or drops entries")},
-	"C18": {sh("C17", "C17.R6", "C18.S2", "a stored schema whose extension / compression / descriptors are switched by a later Create no longer describes the files that are on disk"), sh("C16", "C16.R4", "C18.S1", "field descriptors are part of schema.json and are compared on Create: the tag words must produce the constraint flags the pinned release wrote")},
+	"C13": {sh("C11", "C11.R7", "C13.S2", "an index that failed its ordering control must never be served: result order is the order of the index"), sh("C02", "C02.R5", "C13.S1", "result order is the order of the live field index: a write through a result slice aliasing it re-orders or drops entries")},
+	"C18": {sh("C14", "C14.R7", "C18.S3", "with asynchronous writes the file is encoded from the cloned pending copy: a clone that turns empty containers into nil writes null where the object's JSON encoding has [] or {}"), sh("C17", "C17.R6", "C18.S2", "a stored schema whose extension / compression / descriptors are switched by a later Create no longer describes the files that are on disk"), sh("C16", "C16.R4", "C18.S1", "field descriptors are part of schema.json and are compared on Create: the tag words must produce the constraint flags the pinned release wrote")},
 	"C19": {
 		sh("C17", "C17.R2", "C19.S1", "the index panics recorded as known findings are unreachable only for an index that passed the control: a schema published after a failed control reaches them"),
 		sh("C02", "C02.R4", "C19.S3", "the comparators assert the dynamic type of both operands without a check: the class guard is what turns a mistyped search value into ErrCasting instead of a panic"),
